@@ -2,11 +2,12 @@
 # tools/seed_batch.sh <suffix>   e.g. d  -> all /tmp/wt/C??d worktrees
 # 1. snapshot /verif, 2. triage every changed worktree with all 19 quick checks (VERIF_REPO=worktree),
 # 3. formal record with tools/seed.sh (applies the patch to /repo, restores it) for the checks that fired.
-suf=$1
+suf=$1; shift
+ids=${@:-$(ls /tmp/wt | grep -E "${suf}\$")}
 rsync -a --delete --exclude .git --exclude seeded /verif/ /tmp/verif_snap/
 export VERIF_HOME=/tmp/verif_snap
-ls /tmp/wt | grep -E "${suf}\$" | xargs -P 3 -I{} sh -c 'VERIF_HOME=/tmp/verif_snap /tmp/verif_snap/tools/mutrun.sh /tmp/wt/{} quick > /tmp/triage_{}.log 2>&1'
-for x in $(ls /tmp/wt | grep -E "${suf}\$"); do
+echo $ids | tr ' ' '\n' | xargs -P 3 -I{} sh -c 'VERIF_HOME=/tmp/verif_snap /tmp/verif_snap/tools/mutrun.sh /tmp/wt/{} quick > /tmp/triage_{}.log 2>&1'
+for x in $ids; do
   prop=${x%?}
   fired=$(grep -v 'rc=0' /tmp/triage_$x.log | grep 'rc=' | awk '{print $1}' | tr '\n' ' ')
   echo "=== $x (fired in triage: $fired)"
